@@ -520,6 +520,7 @@ class WsgiApplication(HttpBase):
             p_ctx.out_error = e
             p_ctx.out_document = None
             p_ctx.out_string = None
+            p_ctx.fire_event('method_exception_object')
             return self.handle_error(p_ctx, others, p_ctx.out_error,
                                                                  start_response)
 
@@ -528,6 +529,7 @@ class WsgiApplication(HttpBase):
             p_ctx.out_error = Fault('Server', get_fault_string_from_exception(e))
             p_ctx.out_document = None
             p_ctx.out_string = None
+            p_ctx.fire_event('method_exception_object')
             return self.handle_error(p_ctx, others, p_ctx.out_error,
                                                                  start_response)
 
